@@ -1,5 +1,8 @@
 import TeakraModel.Interp
 import TeakraModel.Exec.Alm
+import TeakraModel.Exec.Shift
+import TeakraModel.Exec.Mma
+import TeakraModel.Exec.MinMax
 /-! Aggregates the instruction handler families (`TeakraModel/Exec/*.lean`). -/
 namespace Teakra
 /-- An opcode outside the part of the handler set that is modelled so far. -/
